@@ -12,6 +12,9 @@ SYS = {
     "alzr": {"obj": "alzr:tangent", "binary": True, "phases": ["AL3ZR"], "x": [(2e-4, 8e-3)], "T": (600.0, 850.0)},
     "almgsi": {"obj": "almgsi:tangent", "binary": False, "phases": ["MGSI_B_P", "MG5SI6_B_DP", "B_PRIME_L", "U1_PHASE", "U2_PHASE"], "x": [(0.003, 0.012), (0.003, 0.012)], "T": (420.0, 540.0)},
     "nicral": {"obj": "nicral:tangent", "binary": False, "phases": ["FCC_L12"], "x": [(0.04, 0.11), (0.07, 0.13)], "T": (950.0, 1200.0)},
+    # the sampling method has no warm start (the mechanism of KF-C09-4): with the sample cache retained it must be history independent,
+    # also across temperature jumps into the undersaturated range (up to 1350 K)
+    "nicral_sampling": {"obj": "nicral:sampling", "binary": False, "phases": ["FCC_L12"], "x": [(0.04, 0.11), (0.07, 0.13)], "T": (950.0, 1350.0)},
 }
 
 
@@ -27,7 +30,7 @@ def check_sequence(case):
     REF = realdb.get(cfg["obj"] + "#ref")
     so = sys.stdout
     sys.stdout = io.StringIO()
-    ordered = case["system"] == "nicral"
+    ordered = case["system"].startswith("nicral")
     nq = 0
     jumped = False
     lastT = None
@@ -60,7 +63,7 @@ def check_sequence(case):
 
             nq += 1
             if kind == "df":
-                if ordered and not case.get("gp_retained"):
+                if ordered and not case.get("gp_retained") and not case.get("retained_ok"):
                     rc = True          # region of open finding KF-C09-4 (retained cache on the order/disorder system) is excluded by construction
                     out.label("excluded_gamma_prime_retained_cache")
                 dg, xp = W.getDrivingForce(xarg, Targ, precPhase=ph, removeCache=rc)
@@ -195,8 +198,21 @@ def _gp_seq(draw):
     return {"system": "nicral", "gp_retained": True, "ops": ops}
 
 
+@st.composite
+def _gp_sampling_seq(draw):
+    cfg = SYS["nicral_sampling"]
+    ops = []
+    for _ in range(draw(st.integers(2, 5))):
+        ops.append({"kind": "df", "x": [[draw(st.floats(*cfg["x"][0])), draw(st.floats(*cfg["x"][1]))]], "T": [draw(st.one_of(st.floats(*cfg["T"]), st.sampled_from([1000.0, 1073.15, 1273.15, 1340.0])))], "phase": 0,
+                    "removeCache": draw(st.sampled_from([False, False, False, True]))})
+    return {"system": "nicral_sampling", "retained_ok": True, "ops": ops}
+
+
 def clauses():
     return [
+        Clause("gamma_prime_sampling_retained", _gp_sampling_seq, check_sequence, quick=24, thorough=400, shrink=False,
+               rule="generator: 2-5 driving-force queries with the 'sampling' method on Ni-Cr-Al gamma prime at independent random compositions and temperatures 950-1350 K (two-phase and undersaturated), sample cache retained between them (3 in 4); "
+                    "oracle: each answer equals that of a cache-free object (5e-2 / 1.5 J/mol), repeats agree; non-trivial: >= 2 queries with a temperature jump"),
         Clause("gamma_prime_retained_cache", _gp_seq, check_sequence, quick=24, thorough=400, shrink=False,
                rule="generator: 2-6 tangent driving-force queries on Ni-Cr-Al gamma prime at independent random compositions/temperatures with the cached composition sets retained between them (region of open finding KF-C09-4: violations of the listed kind are counted as known, anything else is reported); non-trivial: as above"),
         Clause("query_sequences", _seq, check_sequence, quick=64, thorough=1500, shrink=False,
